@@ -118,6 +118,8 @@ def build_traces(wd, path, tier, seed):
     nrec = 60 if tier == "quick" else 500
     for tid in range(1, nrec + 1):
         n = int(rng.integers(1, 40)) if tid % 3 else gen.length(rng, 1, 1500)
+        if tid == nrec - 1:
+            n = int(rng.choice([8193, 9000, 16385, 20001]))          # a long record (an hour at 5 Hz, 80 s at 100 Hz ...): writers work in blocks
         mag = 10.0 ** rng.uniform(-7, 9)
         x = rng.standard_normal(n) * mag
         if tid % 5 == 0:
@@ -131,7 +133,8 @@ def build_traces(wd, path, tier, seed):
                 x[rng.integers(n)] = float(rng.choice([10.0, -20.0, 1000.0, 100.0, -10.0, 0.0]))
         dt = float([10.0 ** rng.uniform(-4, 2), 1.0, 1.5, 10.0, 100.0, 0.01, 0.9999, 0.0001, 2.0][tid % 9])
         dt = min(max(dt, 1e-4), 100.0)
-        label = ["m1", "rec 7 east", "a b  c", "  padded column name", "station 12 EW   ", "x", "D\u00fczce 1999 NS", "\u795e\u6238 EW", "", " ", "   ", "\t"][int(rng.integers(12))]      # incl. no label at all / blanks only
+        label = ["m1", "rec 7 east", "a b  c", "  padded column name", "station 12 EW   ", "x", "D\u00fczce 1999 NS", "\u795e\u6238 EW", "", " ", "   ", "\t",
+                 "1995 6.9", "2011 9", "7 0.5", "12", "3.5", "1999 0.01 NS", "-4 1e-3", "0 0"][int(rng.integers(20))]      # incl. no label at all / blanks only / labels that read like numbers (year and magnitude, a count and a step)
         cls = eqsig.AccSignal if tid % 2 else eqsig.Signal
         if tid % 4 == 3:
             loader.save_values_and_dt(ffp, x if tid % 8 == 3 else x.tolist(), dt, label)     # array-level saver, positional order
